@@ -36,6 +36,7 @@ const N: usize = 12;
 // @assume Parser built over an empty source (escape_string_character only uses it to attach the current span to errors)
 // @timeout 1200
 // @mem 12
+// @kani --no-memory-safety-checks --no-assertion-reach-checks
 #[kani::proof]
 #[kani::unwind(15)]
 #[kani::stub(std::hash::RandomState::new, stub_random_state)]
